@@ -282,3 +282,26 @@ func Select(i int) {
 	Failed = nil
 	Reached = nil
 }
+
+// ---- fork-free logic (the engine builds terms instead of branching) ---------
+
+func And(a, b bool) bool { return a && b }
+func Or(a, b bool) bool  { return a || b }
+func Not(a bool) bool    { return !a }
+func Implies(a, b bool) bool { return !a || b }
+
+// IteInt returns a if c else b.
+func IteInt(c bool, a, b int) int {
+	if c {
+		return a
+	}
+	return b
+}
+
+// B2I converts a bool to 0/1.
+func B2I(c bool) int {
+	if c {
+		return 1
+	}
+	return 0
+}
